@@ -53,6 +53,11 @@ func HarnessC14String() {
 		// a nested map holding several unsupported values of different types
 		data = map[string]any{"o": map[string]any{"f": func() {}, "g": func(int) string { return "" }, "c": make(chan int)}, "x": x, "y": y}
 	}
+	if vChoice("earlier-failing-render", 2) == 1 {
+		// a render of the same process that fails in the second pass of a loop, after the first pass produced text
+		_, ferr := EvaluateString("@each(v in [1, 0])<{{ 6 / v }}>@end", nil)
+		vAssert(ferr != nil, "faulty-template-fails")
+	}
 	vMapOrder("insertion")
 	out1, err1 := c14String(src, data)
 	reps := 1
